@@ -29,9 +29,13 @@ import (
 const (
 	verifDir = "/verif"
 	simDir   = "/verif/sim"
-	repoDir  = "/repo"
 	goBin    = "go1.26.8"
 )
+
+// repoDir is /repo for every registered check. VSIM_REPO_DIR points the build
+// at a scratch worktree instead (used only to try seeded breaking changes
+// without touching /repo); the evidence then says so.
+var repoDir = envOr("VSIM_REPO_DIR", "/repo")
 
 type variant struct {
 	Name      string
@@ -153,12 +157,28 @@ func build(p *propCfg, only string) (*built, error) {
 			_ = os.WriteFile(filepath.Join(simDir, "go.sum"), data, 0o644)
 		}
 	}
+	modfile := ""
+	if repoDir != "/repo" {
+		// same harness, other tink tree: a scratch go.mod whose replace points there
+		gm, err := os.ReadFile(filepath.Join(simDir, "go.mod"))
+		if err != nil {
+			return b, err
+		}
+		modfile = filepath.Join(dir, "alt.mod")
+		_ = os.WriteFile(modfile, []byte(strings.Replace(string(gm), "=> /repo", "=> "+repoDir, 1)), 0o644)
+		if gs, err := os.ReadFile(filepath.Join(simDir, "go.sum")); err == nil {
+			_ = os.WriteFile(filepath.Join(dir, "alt.sum"), gs, 0o644)
+		}
+	}
 	for _, v := range p.Variants {
 		if only != "" && v.Name != only {
 			continue
 		}
 		bin := filepath.Join(dir, p.World+"-"+v.Name+".test")
 		args := []string{"test", "-c", "-vet=off", "-o", bin}
+		if modfile != "" {
+			args = append(args, "-modfile", modfile)
+		}
 		if v.Race {
 			args = append(args, "-race")
 		}
@@ -451,9 +471,13 @@ func cmdCheck(args []string) int {
 	// ---- evidence
 	wall := time.Since(start).Seconds()
 	ev := mergeEvidence(p, *tier, verifSeed, results, wall, buildS, len(violLines))
-	_ = os.MkdirAll(filepath.Join(verifDir, "evidence"), 0o755)
+	evDir := filepath.Join(verifDir, "evidence")
+	if repoDir != "/repo" {
+		evDir = filepath.Join(os.TempDir(), "vsim-alt-evidence") // never mix runs against a scratch tree into the evidence
+	}
+	_ = os.MkdirAll(evDir, 0o755)
 	data, _ := json.MarshalIndent(ev, "", " ")
-	if err := os.WriteFile(filepath.Join(verifDir, "evidence", p.ID+".json"), data, 0o644); err != nil {
+	if err := os.WriteFile(filepath.Join(evDir, p.ID+".json"), data, 0o644); err != nil {
 		fmt.Fprintf(os.Stderr, "vsim: cannot write evidence: %v\n", err)
 		infra = true
 	}
